@@ -31,6 +31,7 @@ def explore(res, rng, n, exhaustive=None):
         for h in core.small_histories(L, V):
             cases.append((h, 0))
             cases.append(([0] + [v + 0 for v in h] + [0], 0))
+    cyc.micro_stream(res, ['rychlik', 'johannesson'], rng, max(30, n // 25))
     reqs, meta = [], []
     for h, s in cases:
         if len(h) < 2:
